@@ -238,6 +238,19 @@ partial def gFnl? (j : Json) : Option Fnl := do
   | "nonneg" =>
     some { eval := fun v => if v.a.any (fun a => a < 0.0) then inf else 0.0,
            prox := fun _ v => v.map (fun a => if a < 0.0 then 0.0 else a), grad := fun v => v, quad := none }
+  | "dwell" =>
+    -- smooth NON-convex double well  f(x) = Σ (a/4) x_i⁴ − (b/2) x_i² + c_i x_i  (negative curvature for |x_i| < sqrt(b/(3a)))
+    let a ← fFloat? j "a"
+    let b ← fFloat? j "b"
+    let c ← fFV? j "c"
+    some { eval := fun v => (Array.ofFn (n := v.size) (fun i =>
+               let x := v.get i.val
+               a / 4.0 * (x * x * x * x) - b / 2.0 * (x * x) + c.get i.val * x)).foldl (· + ·) 0.0,
+           prox := fun _ v => v,
+           grad := fun v => ⟨Array.ofFn (n := v.size) (fun i =>
+               let x := v.get i.val
+               a * (x * x * x) - b * x + c.get i.val)⟩,
+           quad := none }
   | "sqloss" =>
     let s ← fFloat? j "s"
     let y ← fFV? j "y"
@@ -297,6 +310,52 @@ def jAPGM (s : APGMState FV Float FV) : Json :=
 def gAPGMState? (j : Json) : Option (APGMState FV Float FV) := do
   some { x := ← fFV? j "x", v := ← fFV? j "v", t := ← fFloat? j "t", L := ← fFloat? j "L",
          fpr := ← fFloat? j "fpr", mem := ← fFV? j "mem" }
+
+/-- memory of the real Barzilai–Borwein policies on the wire: `{"xp":…|null, "gp":…|null, "l1":…|null, "l2":…|null}` -/
+def fOptF? (j : Json) (k : String) : Option (Option Float) :=
+  match field? j k with
+  | none => some none
+  | some .null => some none
+  | some v => (getFloat? v).map some
+def jOptF (o : Option Float) : Json := match o with
+  | some v => jF v
+  | none => Json.null
+def gBBMem? (j : Json) : Option (BBMem FV) := do
+  match ← fOptFV? j "xp", ← fOptFV? j "gp" with
+  | some a, some b => some (some (a, b))
+  | _, _ => some none
+def jBBMem (m : BBMem FV) : Json := match m with
+  | some (a, b) => jObj [("xp", jFV a), ("gp", jFV b), ("l1", Json.null), ("l2", Json.null)]
+  | none => jObj [("xp", Json.null), ("gp", Json.null), ("l1", Json.null), ("l2", Json.null)]
+def gABBMem? (j : Json) : Option (ABBMem Float FV) := do
+  some { prev := ← gBBMem? j, l1 := ← fOptF? j "l1", l2 := ← fOptF? j "l2" }
+def jABBMem (m : ABBMem Float FV) : Json := match m.prev with
+  | some (a, b) => jObj [("xp", jFV a), ("gp", jFV b), ("l1", jOptF m.l1), ("l2", jOptF m.l2)]
+  | none => jObj [("xp", Json.null), ("gp", Json.null), ("l1", jOptF m.l1), ("l2", jOptF m.l2)]
+
+def okL (l : Float) : Bool := l.isFinite && l > 0.0
+
+def jPGMσ {σ} (enc : σ → Json) (s : PGMState σ Float FV) : Json :=
+  jObj [("x", jFV s.x), ("L", jF s.L), ("fpr", jF s.fpr), ("mem", enc s.mem)]
+def gPGMσ? {σ} (dec : Json → Option σ) (j : Json) : Option (PGMState σ Float FV) := do
+  some { x := ← fFV? j "x", L := ← fFloat? j "L", fpr := ← fFloat? j "fpr", mem := ← (field? j "mem").bind dec }
+def jAPGMσ {σ} (enc : σ → Json) (s : APGMState σ Float FV) : Json :=
+  jObj [("x", jFV s.x), ("v", jFV s.v), ("t", jF s.t), ("L", jF s.L), ("fpr", jF s.fpr), ("mem", enc s.mem)]
+def gAPGMσ? {σ} (dec : Json → Option σ) (j : Json) : Option (APGMState σ Float FV) := do
+  some { x := ← fFV? j "x", v := ← fFV? j "v", t := ← fFloat? j "t", L := ← fFloat? j "L",
+         fpr := ← fFloat? j "fpr", mem := ← (field? j "mem").bind dec }
+
+/-- PGM parameters with the model's transcription of the real `BBStepSize` / `AdaptiveBBStepSize` -/
+def gPGMParamsBB? (j : Json) : Option (PGMParams (BBMem FV) Float FV) := do
+  let f ← (field? j "f").bind gFnl?
+  let g ← (field? j "g").bind gFnl?
+  some { f := f.eval, g := g.eval, gradf := f.grad, proxg := g.prox, pol := bbPolicy f.grad FV.dot okL (0 : FV), normX := FV.norm }
+def gPGMParamsABB? (j : Json) : Option (PGMParams (ABBMem Float FV) Float FV) := do
+  let f ← (field? j "f").bind gFnl?
+  let g ← (field? j "g").bind gFnl?
+  let kappa ← fFloat? j "kappa"
+  some { f := f.eval, g := g.eval, gradf := f.grad, proxg := g.prox, pol := abbPolicy f.grad FV.dot okL kappa (0 : FV),
+         normX := FV.norm }
 
 /-! ### parameters -/
 
@@ -443,6 +502,19 @@ def handler : Handler := fun op j =>
     | "apgm" =>
       let p ← gPGMParams? pj
       runTrace (apgmImplStep p) (apgmSpecStep p) jAPGM mode k (← gAPGMState? sj)
+    -- the real Barzilai–Borwein policies (model transcription `bbPolicy` / `abbPolicy`), memory in the state
+    | "pgm-bb" =>
+      let p ← gPGMParamsBB? pj
+      runTrace (pgmImplStep p) (pgmSpecStep p) (jPGMσ jBBMem) mode k (← gPGMσ? gBBMem? sj)
+    | "apgm-bb" =>
+      let p ← gPGMParamsBB? pj
+      runTrace (apgmImplStep p) (apgmSpecStep p) (jAPGMσ jBBMem) mode k (← gAPGMσ? gBBMem? sj)
+    | "pgm-abb" =>
+      let p ← gPGMParamsABB? pj
+      runTrace (pgmImplStep p) (pgmSpecStep p) (jPGMσ jABBMem) mode k (← gPGMσ? gABBMem? sj)
+    | "apgm-abb" =>
+      let p ← gPGMParamsABB? pj
+      runTrace (apgmImplStep p) (apgmSpecStep p) (jAPGMσ jABBMem) mode k (← gAPGMσ? gABBMem? sj)
     | _ => none
   | "init" => do
     let alg ← fStr? j "alg"
